@@ -16,7 +16,7 @@ draw to be nonzero, `(0,1)`: a draw of exactly `0.0` loses the partial item (`eb
 NOT formalised (DESIGN.md §5): "over the sampling randomness each item's inclusion probability is proportional to its
 weight" as a statement about the joint distribution of all draws.  Only the one-step identities are proved (`eb_one_step_pps_*`).
 -/
-import DSProofs.Lemmas.EbppsMerge
+import DSProofs.Lemmas.EbppsHist
 namespace DS.Ebpps
 
 /-- the items offered by a stream -/
@@ -25,7 +25,7 @@ def itemsOf (ops : List (Upd Rat)) : List Nat := ops.map (·.item)
 /-- a valid update stream: positive weights and admissible draws -/
 def ValidStream (v : Variant) (ops : List (Upd Rat)) : Prop := ∀ u ∈ ops, 0 < u.w ∧ UnitOK v.geDraw u.d
 
-theorem streamOK_of_valid {v : Variant} {ops : List (Upd Rat)} (h : ValidStream v ops) :
+lemma streamOK_of_valid {v : Variant} {ops : List (Upd Rat)} (h : ValidStream v ops) :
     StreamOK v (· ∈ itemsOf ops) ops := fun u hu =>
   ⟨(h u hu).1, List.mem_map.2 ⟨u, hu, rfl⟩, (h u hu).2⟩
 
@@ -163,5 +163,120 @@ theorem eb_merge (v : Variant) (ka kb : Nat) (hka : 1 ≤ ka) (hkb : 1 ≤ kb) (
         max_comm, min_comm] at this
       exact this
     exact ⟨e3, e2, e4, fin _ _ _ _ hcore e2⟩
+
+/-! ## Arbitrary histories (merge trees) -/
+
+/-- With the repaired merge (`wt_max_` stored, empty operands handled: proposed_fixes/C18-merge-wt-max.patch and
+C18-merge-empty-k.patch) EVERY history — any tree of updates, merges in either direction, resets and serialization
+points, any draws — keeps all the invariants: counters exact, `k` the smallest merged `k`, `c = rho·cumWt = min(k, cumWt/wtMax)`,
+sample structure, stored items ⊆ offered items. -/
+theorem eb_all_histories_repaired (v : Variant) (hv1 : v.mergeSetsWtMax = true) (hv2 : v.mergeEmptyShrinks = true)
+    (h : Hist Rat) (hok : h.OK v) :
+    (h.eval v).n = h.cnt ∧ (h.eval v).cumWt = h.wt ∧ (h.eval v).k = h.kmin ∧ (h.eval v).wtMax = h.wmax ∧
+    (0 < h.wt → (h.eval v).sample.c = (h.eval v).rho * (h.eval v).cumWt ∧
+                (h.eval v).sample.c = min (h.kmin : Rat) (h.wt / h.wmax)) ∧
+    ((h.eval v).sample.data.length : Int) = (h.eval v).sample.c.floor ∧
+    ((h.eval v).sample.part.isSome ↔ (((h.eval v).sample.c.floor : Int) : Rat) < (h.eval v).sample.c) ∧
+    ∀ x ∈ (h.eval v).sample.items, x ∈ h.items := by
+  have a := hist_agrees hv1 hv2 h hok
+  have hs := a.wf.sinv
+  refine ⟨a.n, a.w, a.k, a.m, ?_, hs.len, hs.part, ?_⟩
+  · intro hpos
+    rcases a.wf.fresh_or_live with ⟨hw, -, -, -⟩ | ⟨hc, -, -⟩
+    · rw [a.w] at hw; rw [hw] at hpos; exact absurd hpos (lt_irrefl 0)
+    · have h3 := hc.closed
+      rw [a.w, a.m, a.k] at h3
+      exact ⟨hc.c, h3⟩
+  · intro x hx
+    unfold Sample.items at hx
+    rcases List.mem_append.1 hx with hx | hx
+    · exact hs.dataP x hx
+    · exact hs.partP x (by simpa using hx)
+
+example : (Hist.merge (.upd (.fresh 3) ⟨1, 2, ⟨[], []⟩⟩) (.reset (.upd (.fresh 5) ⟨2, 7, ⟨[1/2], [3]⟩⟩)) ⟨[1/4], []⟩ : Hist Rat).OK
+    { mergeSetsWtMax := true, mergeEmptyShrinks := true } := by
+  simp [Hist.OK, UnitOK]; norm_num
+
+/-! ### What the CURRENT code violates (witnesses; each is replayed on the real headers by corpus/regress/C18/) -/
+
+/-- FULL closed form over arbitrary histories of the pinned code (`Variant` `{}`): false. -/
+def eb_c_closed_form_full : Prop :=
+  ∀ h : Hist Rat, h.OK {} → 0 < h.wt → (h.eval {}).sample.c = min (h.kmin : Rat) (h.wt / h.wmax)
+
+/-- `{1,1}` (k=4) merges `{2}`, then one more update of weight 1 (corpus/regress/C18/f1-wt-max-stale.txt) -/
+def witnessStaleMax : Hist Rat :=
+  .upd (.merge (.upd (.upd (.fresh 4) ⟨1, 1, ⟨[], []⟩⟩) ⟨2, 1, ⟨[], []⟩⟩) (.upd (.fresh 4) ⟨3, 2, ⟨[], []⟩⟩) ⟨[], []⟩)
+    ⟨4, 1, ⟨[], []⟩⟩
+
+/-- `internal_merge` never stores the new maximum weight: after the merge the next update computes `rho` from the stale
+`wt_max_` and `c` leaves the closed form (`14/5` instead of `min(4, 5/2)`). -/
+theorem eb_c_closed_form_full_false : ¬ eb_c_closed_form_full := by
+  intro h
+  have h1 := h witnessStaleMax (by simp [witnessStaleMax, Hist.OK, UnitOK]) (by simp [witnessStaleMax, Hist.wt]; norm_num)
+  have h2 : (witnessStaleMax.eval {}).sample.c = 14 / 5 := by decide +kernel
+  have h3 : min ((witnessStaleMax.kmin : Nat) : Rat) (witnessStaleMax.wt / witnessStaleMax.wmax) = 5 / 2 := by
+    simp [witnessStaleMax, Hist.kmin, Hist.wt, Hist.wmax]; norm_num
+  rw [h2, h3] at h1
+  norm_num at h1
+
+/-- what IS proved of the closed form for the pinned code: update streams (`eb_c_closed_form`), one merge of two streams in
+either direction (`eb_merge`); and for every history once `wt_max_` is stored and empty operands are handled. -/
+theorem eb_c_closed_form_partial (v : Variant) (hv1 : v.mergeSetsWtMax = true) (hv2 : v.mergeEmptyShrinks = true)
+    (h : Hist Rat) (hok : h.OK v) (hpos : 0 < h.wt) :
+    (h.eval v).sample.c = min (h.kmin : Rat) (h.wt / h.wmax) :=
+  ((eb_all_histories_repaired v hv1 hv2 h hok).2.2.2.2.1 hpos).2
+
+/-- unit draws as the library produces them: `[0, 1)` -/
+def HalfOpen (d : Draws Rat) : Prop := ∀ u ∈ d.us, 0 ≤ u ∧ u < 1
+
+/-- FULL structure statement for the pinned code with draws in `[0,1)`: false. -/
+def eb_structure_full : Prop :=
+  ∀ (k : Nat), 1 ≤ k → ∀ ops : List (Upd Rat), (∀ u ∈ ops, 0 < u.w ∧ HalfOpen u.d) →
+    ((runUpdates {} (Sketch.fresh k) ops).sample.data.length : Int) = (runUpdates {} (Sketch.fresh k) ops).sample.c.floor
+
+/-- k = 1, two unit weights, every `next_double()` equal to 0.0 (corpus/regress/C18/f2-unit-draw-zero.txt) -/
+def witnessZeroDraw : List (Upd Rat) := [⟨1, 1, ⟨[0], []⟩⟩, ⟨2, 1, ⟨[0, 0], []⟩⟩]
+
+/-- `next_double() > c_frac / c_` with `c_frac = 0` and a draw of exactly 0 does not move a full item to the partial slot:
+the sample is emptied while `c = 1/2`, and the following merge has no item to promote: `c = 1`, no item. -/
+theorem eb_structure_full_false : ¬ eb_structure_full := by
+  intro h
+  have h1 := h 1 (le_refl 1) witnessZeroDraw (by
+    intro u hu
+    simp [witnessZeroDraw] at hu
+    rcases hu with rfl | rfl <;> simp [HalfOpen])
+  revert h1
+  decide +kernel
+
+/-- the structure statement as proved for the pinned code: draws in the open interval `(0,1)`. -/
+theorem eb_structure_partial (k : Nat) (hk : 1 ≤ k) (ops : List (Upd Rat))
+    (h : ∀ u ∈ ops, 0 < u.w ∧ ∀ x ∈ u.d.us, 0 < x ∧ x < 1) :
+    ((runUpdates {} (Sketch.fresh k) ops).sample.data.length : Int) = (runUpdates {} (Sketch.fresh k) ops).sample.c.floor :=
+  (eb_structure {} k hk ops (fun u hu => ⟨(h u hu).1, fun x hx => by simpa using (h u hu).2 x hx⟩)).1
+
+/-- FULL merge statement over arbitrary histories of the pinned code: `k` is the smallest merged `k` and `c ≤ k`: false. -/
+def eb_merge_full : Prop :=
+  ∀ h : Hist Rat, h.OK {} → (h.eval {}).k = h.kmin ∧ (h.eval {}).sample.c ≤ (h.eval {}).k
+
+/-- an empty sketch of size 2 merges a sketch of size 4 holding four unit weights (corpus/regress/C18/f3-merge-empty-k.txt) -/
+def witnessEmptyOperand : Hist Rat :=
+  .merge (.fresh 2)
+    (.upd (.upd (.upd (.upd (.fresh 4) ⟨1, 1, ⟨[], []⟩⟩) ⟨2, 1, ⟨[], []⟩⟩) ⟨3, 1, ⟨[], []⟩⟩) ⟨4, 1, ⟨[], []⟩⟩) ⟨[], []⟩
+
+/-- `k` is lowered to 2 but nothing is replayed, so the sample keeps `c = 4 > k` (and in the other direction the early
+return keeps `k = 4`). -/
+theorem eb_merge_full_false : ¬ eb_merge_full := by
+  intro h
+  have h1 := (h witnessEmptyOperand (by simp [witnessEmptyOperand, Hist.OK, UnitOK])).2
+  revert h1
+  decide +kernel
+
+/-- the merge statement as proved for the pinned code: non-empty operands, either direction (`eb_merge`). -/
+theorem eb_merge_partial (ka kb : Nat) (hka : 1 ≤ ka) (hkb : 1 ≤ kb) (A B : List (Upd Rat))
+    (hA : A ≠ []) (hB : B ≠ []) (hvA : ValidStream {} A) (hvB : ValidStream {} B) (d : Draws Rat) (hd : UnitOK false d) :
+    (mergeSk {} (runUpdates {} (Sketch.fresh ka) A) (runUpdates {} (Sketch.fresh kb) B) d).1.k = min ka kb ∧
+    (mergeSk {} (runUpdates {} (Sketch.fresh ka) A) (runUpdates {} (Sketch.fresh kb) B) d).1.sample.c ≤ (min ka kb : Nat) := by
+  obtain ⟨-, -, h3, h4, -⟩ := eb_merge {} ka kb hka hkb A B hA hB hvA hvB d hd _ (Or.inl rfl)
+  exact ⟨h3, by rw [h4]; exact min_le_left _ _⟩
 
 end DS.Ebpps
